@@ -136,9 +136,9 @@ func init() {
 			"exit 0 only if every file was patched; if something could not be processed exit != 0 and stderr names the path and the cause; other files' results unchanged. non-trivial = the fault fired (strace marks the call INJECTED / killed / non-zero exit); distinct = (fault source, syscall, errno or limit, when, run length).",
 		Assumptions: []string{"GOMAXPROCS=1 for the injected runs so that strace's per-thread 'when' counter is meaningful; whether a fault fired is read from the strace log, faults that do not fire are counted and not judged non-trivial",
 			"a crash (SIGKILL) may leave temporary non-.go files behind; only *.go files are classified"},
-		Cases:  func(tier string) int { return len(c16Faults(tier)) },
-		Floor:  func(string) int { return 120 },
-		Run:    runC16,
+		Cases:   func(tier string) int { return len(c16Faults(tier)) },
+		Floor:   func(string) int { return 120 },
+		Run:     runC16,
 		Workers: 14,
 	})
 }
